@@ -100,9 +100,23 @@ def eqs(reqs):
     return out
 
 
+def grid1d(cases):
+    """the REAL make1dGrid on given face values (hex floats): the grid, or the refusal"""
+    out = []
+    stub = types.SimpleNamespace()
+    for faces in cases:
+        fv = [float.fromhex(x) for x in faces]
+        try:
+            g = Equilibrium.make1dGrid(stub, len(fv) - 1, lambda i: fv[i])
+            out.append({"grid": [float(x).hex() for x in g]})
+        except ValueError as e:
+            out.append({"refused": str(e)})
+    return out
+
+
 def main():
     req = json.load(sys.stdin)
-    res = {"funcs": funcs(req.get("funcs", [])), "eqs": eqs(req.get("eqs", [])), "sweeps": sweeps(req.get("sweeps", []))}
+    res = {"funcs": funcs(req.get("funcs", [])), "eqs": eqs(req.get("eqs", [])), "sweeps": sweeps(req.get("sweeps", [])), "grid1d": grid1d(req.get("grid1d", []))}
     print("@@JSON " + json.dumps(res, default=lambda o: o.item() if hasattr(o, "item") else str(o)))
     sys.stdout.flush()
     os._exit(0)
